@@ -156,3 +156,52 @@ Theorem crc32_is_bitwise_ieee b : Forall (fun x => 0 <= x < 256) b -> crc32 b = 
 Proof.
   intros Hb. rewrite crc32_is_ieee. unfold crc32_ieee, crc32_bitwise. rewrite fold_std_bitwise by exact Hb. reflexivity.
 Qed.
+
+(* ---- CRC-32 is affine over GF(2): the change of the CRC under a bit pattern d depends on d alone.  This is the algebraic
+   fact behind the recorded C09 finding (TKIP frames are accepted on the ICV alone: a payload bit flip plus the key-free
+   ICV patch [crc_delta d] verifies). ---- *)
+Definition xor_bytes (a d : list Z) : list Z := map (fun p => Z.lxor (fst p) (snd p)) (combine a d).
+Definition bit_run (b : list Z) (t : Z) : Z := fold_left (fun t byte => bit8 (Z.lxor t byte)) b t.
+Definition crc_delta (d : list Z) : Z := bit_run d 0.
+
+Lemma bit8_lin a b : bit8 (Z.lxor a b) = Z.lxor (bit8 a) (bit8 b).
+Proof. unfold bit8. rewrite !bit4_lin. reflexivity. Qed.
+
+Lemma bit_run_lin a : forall d t u, length a = length d ->
+  bit_run (xor_bytes a d) (Z.lxor t u) = Z.lxor (bit_run a t) (bit_run d u).
+Proof.
+  induction a as [|x r IH]; intros [|y s] t u Hl; try discriminate Hl; [reflexivity|].
+  unfold bit_run, xor_bytes in *. cbn [combine map fold_left fst snd].
+  replace (Z.lxor (Z.lxor t u) (Z.lxor x y)) with (Z.lxor (Z.lxor t x) (Z.lxor u y)) by xor_bits.
+  rewrite bit8_lin. apply IH. injection Hl as Hl. exact Hl.
+Qed.
+
+Lemma log2_byte x : 0 <= x < 256 -> Z.log2 x < 8.
+Proof. intros Hx. destruct (Z.eq_dec x 0) as [->|Hn]; [reflexivity|]. apply Z.log2_lt_pow2; lia. Qed.
+
+Lemma lxor_byte x y : 0 <= x < 256 -> 0 <= y < 256 -> 0 <= Z.lxor x y < 256.
+Proof.
+  intros Hx Hy. assert (H0 : 0 <= Z.lxor x y) by (apply Z.lxor_nonneg; lia). split; [exact H0|].
+  destruct (Z.eq_dec (Z.lxor x y) 0) as [->|Hn]; [reflexivity|].
+  change 256 with (2 ^ 8). apply Z.log2_lt_pow2; [lia|].
+  pose proof (Z.log2_lxor x y ltac:(lia) ltac:(lia)) as Hl.
+  pose proof (log2_byte x Hx). pose proof (log2_byte y Hy). lia.
+Qed.
+
+Lemma bytes_xor a : forall d, Forall (fun x => 0 <= x < 256) a -> Forall (fun x => 0 <= x < 256) d ->
+  Forall (fun x => 0 <= x < 256) (xor_bytes a d).
+Proof.
+  unfold xor_bytes. induction a as [|x r IH]; intros [|y s] Ha Hd; cbn [combine map]; try constructor.
+  - inversion Ha as [|? ? Hx _]; inversion Hd as [|? ? Hy _]; subst. cbn [fst snd]. apply lxor_byte; assumption.
+  - inversion Ha; inversion Hd; subst. apply IH; assumption.
+Qed.
+
+Theorem crc32_malleable a d : Forall (fun x => 0 <= x < 256) a -> Forall (fun x => 0 <= x < 256) d -> length a = length d ->
+  crc32 (xor_bytes a d) = Z.lxor (crc32 a) (crc_delta d).
+Proof.
+  intros Ha Hd Hl. rewrite !crc32_is_bitwise_ieee by (try apply bytes_xor; assumption).
+  unfold crc32_bitwise, crc_delta. fold (bit_run (xor_bytes a d) crc_ones). fold (bit_run a crc_ones).
+  replace crc_ones with (Z.lxor crc_ones 0) at 1 by reflexivity.
+  rewrite bit_run_lin by exact Hl.
+  set (p := bit_run a crc_ones). set (q := bit_run d 0). set (m := crc_ones). xor_bits.
+Qed.
